@@ -59,6 +59,23 @@ class Opaque:
 OPAQUE = Opaque()
 
 
+class SymText(Opaque):
+    """the decimal text of a symbolic integer ("{:d}".format(x) / "{}".format(x) / str(x)): content known exactly"""
+
+    def __init__(self, value):
+        self.value = value
+
+
+# text assigned to lxml elements when it depends on symbolic data: id(element) -> (element, value); reset per path
+ELEM_TEXT = {}
+
+
+def text_of(el):
+    """text of an lxml element as the interpreted code left it (SymText/Opaque if symbolic)"""
+    hit = ELEM_TEXT.get(id(el))
+    return hit[1] if hit is not None else el.text
+
+
 class Closure:
     def __init__(self, node, frame, name=None, defaults=None, kw_defaults=None):
         self.node = node
@@ -253,6 +270,8 @@ class Interp:
             for t, names in STRUCTURAL_METHODS.items():
                 if isinstance(recv, t) and f.__name__ in names and not has_sym(self._hashed_args(f.__name__, args)):
                     return self.native(f, args, kwargs)
+            if isinstance(recv, str) and f.__name__ == "format" and recv in ("{:d}", "{}") and len(args) == 1 and not kwargs and isinstance(args[0], SymInt):
+                return SymText(args[0])
             if isinstance(recv, str) and f.__name__ in ("format", "join"):
                 return OPAQUE
             if isinstance(f, types.MethodType) and loader.is_repo_function(f.__func__):
@@ -864,6 +883,9 @@ class Interp:
             return obj.heap.store(obj, name, v, self)
         if isinstance(obj, (Sym, Opaque, Closure)):
             raise PyRaise(AttributeError, "cannot set attribute")
+        if isinstance(v, Opaque) and type(obj).__module__.startswith("lxml.") and name in ("text", "tail"):
+            ELEM_TEXT[id(obj)] = (obj, v)  # lxml is opaque to the engine: the text is remembered beside the element
+            return
         if obj is None:
             raise PyRaise(AttributeError, "'NoneType' object has no attribute '%s'" % name)
         cls = type(obj)
